@@ -94,6 +94,8 @@ pub enum Op {
     SetAdd(usize),
     /// select repeatedly until the ideal set has no pending event
     SetDrain,
+    /// drop the receiver set with all its members (and everything queued on them)
+    SetDrop,
     /// a new channel from ipc::channel()
     NewChannel,
     /// a new channel through a one-shot server: new, connect, send a first message, accept
@@ -241,6 +243,7 @@ impl World {
             Op::SendRegion(h) => held_main(*h) && room(*h),
             Op::SetAdd(c) => self.chans[*c].rx == RState::Held,
             Op::SetDrain => self.pending_set_events() > 0,
+            Op::SetDrop => !self.set_members().is_empty(),
             Op::NewChannel | Op::OneShot | Op::OneShotClientLeft => self.chans.len() < self.max_chans,
         }
     }
@@ -300,6 +303,12 @@ impl World {
             },
             Op::DropRx(c) => {
                 self.kill_rx(*c);
+                Expect::Done
+            },
+            Op::SetDrop => {
+                for c in self.set_members() {
+                    self.kill_rx(c);
+                }
                 Expect::Done
             },
             Op::MoveThread(h) => {
@@ -362,6 +371,7 @@ impl World {
             v.push(Op::SetAdd(c));
         }
         v.push(Op::SetDrain);
+        v.push(Op::SetDrop);
         v.push(Op::NewChannel);
         v.push(Op::OneShot);
         v.push(Op::OneShotClientLeft);
@@ -585,6 +595,11 @@ impl Exec {
             },
             Op::DropRx(c) => {
                 self.receivers.remove(c);
+                Ok(Expect::Done)
+            },
+            Op::SetDrop => {
+                self.set = None;
+                self.set_ids.clear();
                 Ok(Expect::Done)
             },
             Op::SendRegion(h) => {
